@@ -88,6 +88,8 @@ def state_steps(lines: List[Dict[str, Any]]) -> Tuple[List[Dict[str, Any]], Dict
     bases: Dict[str, Dict[str, Any]] = {}
     steps: List[Dict[str, Any]] = []
     cur = None
+    picked_all: List[str] = []
+    stranded: List[str] = []
     for e in lines:
         ev = e["ev"]
         if ev == "begin":
@@ -109,6 +111,11 @@ def state_steps(lines: List[Dict[str, Any]]) -> Tuple[List[Dict[str, Any]], Dict
                     cur["moved"].append([v, a["odo"] - b["odo"]])
                 if b["act"] == "DispatchTrip" and b["tgt"] in d.get("rmreq", []):
                     cur["picked"].append([b["tgt"], v])
+                    picked_all.append(b["tgt"])
+                    if a["act"] == "OutOfService":
+                        stranded.append(b["tgt"])        # picked up and stranded in the same update
+                if b["act"] == "ServicingTrip" and b.get("ob") and a["act"] == "OutOfService":
+                    stranded.append(b["ob"])             # the vehicle ran dry with the passengers on board
                 if a["act"] == "ServicingTrip" and a["rn"] == 0 and (b["act"] != "ServicingTrip" or b["rn"] > 0):
                     cur["dropped"].append([a["ob"], v])
         elif ev == "pre" and cur is not None:
@@ -123,7 +130,10 @@ def state_steps(lines: List[Dict[str, Any]]) -> Tuple[List[Dict[str, Any]], Dict
         if ev == "end" and cur is not None:
             steps.append(cur)
             cur = None
-    final = {"odo": [[i, r["odo"]] for i, r in sorted(veh.items())], "gained": [[i, r["gained"]] for i, r in sorted(veh.items())]}
+    final = {"odo": [[i, r["odo"]] for i, r in sorted(veh.items())], "gained": [[i, r["gained"]] for i, r in sorted(veh.items())],
+             # what became of every request that was picked up (per the state): still on board at the end, or stranded
+             "picked_all": sorted(set(picked_all)), "stranded": sorted(set(stranded)),
+             "onboard": sorted({r["ob"] for r in veh.values() if r.get("ob")})}
     return steps, final
 
 
